@@ -592,6 +592,7 @@ type Result struct {
 	Budget           int              `json:"budget_max"`
 	Outcomes         map[string]int64 `json:"outcomes"`
 	DistinctOutcomes int              `json:"distinct_outcomes"`
+	OutcomeHashes    []string         `json:"outcome_hashes,omitempty"` // all of them (up to 50000), so that shards can be united exactly
 	Failures         []Failure        `json:"failures"`
 	FailSigs         map[string]int   `json:"fail_sigs"`
 	Samples          []Sample         `json:"samples"`
@@ -704,6 +705,14 @@ func Main(t *testing.T, h Harness) {
 	res.MaxDevs = e.maxDevs
 	res.DistinctOutcomes = len(e.outcomes)
 	res.Outcomes = topOutcomes(e.outcomes, 40)
+	for oc := range e.outcomes {
+		if len(res.OutcomeHashes) >= 50000 {
+			break
+		}
+		h := fnv.New64a()
+		h.Write([]byte(oc))
+		res.OutcomeHashes = append(res.OutcomeHashes, fmt.Sprintf("%x", h.Sum64()))
+	}
 	res.Failures = e.failures
 	res.FailSigs = e.failSigs
 	res.Samples = e.samples
